@@ -14,6 +14,7 @@ EXPLANATION = (
     "replacement hook is installed for every serializer and weak registration stores a weakref plus a finalizer; every registry "
     "value that is used as an object is unwrapped first; by-value serialisation neutralises the daemon mark by assignment."
     "Also decided: serialising a value never writes to it; the registry is per daemon; unknown ids can never reach a result reply; the auto-proxy hook is installed on both registration branches; a dead weak reference is recognised by identity with None; blob calls name the call's object id; a proxy refuses an object as exposing nothing only when it has neither methods nor attributes. "
+    "Also decided (round 7): After the registry store nothing in register() can raise; the handshake's lookup treats exactly None as unknown. "
     "Not decided: identity of the object reached through a proxy, GC timing."
 )
 
@@ -77,6 +78,15 @@ def run(ctx, R, tier):
     ok = all(cfg.guarded(n, lambda e: edge_implies_any(e, [force_true, id_not_in])) for n in cfg.nodes_for(st0))
     R.check(ok, "C16-R2", "register|duplicate-id-refused", "without force the store is reachable only if the id is not yet in the registry", reg.loc(st0),
             "a second registration under an id that is already taken silently replaces the first object")
+
+    # a registration either happens or fails, not both: once the object is in the registry nothing that can still raise runs before register() returns (building the
+    # URI for an id that is not a valid object name raises: done after the store, the caller gets an exception AND a registered, reachable object)
+    can_raise = ctx.exc_filter(reg)
+    after = cfg.reachable(cfg.nodes_for(st0), edge_ok=lambda e: e.kind != "exc")
+    late = [n for n in cfg.nodes if n.id in after and n not in cfg.nodes_for(st0) and any(e.kind == "exc" and can_raise(e) for e in n.succ)]
+    R.check(not late, "C16-R2", "register|nothing-can-fail-after-the-store", "after the registry store no statement of register() can raise", reg.loc(late[0].ast) if late else reg.loc(st0),
+            ("`%s` can raise after the object was stored in the registry: register() then fails although the object is registered, listed and reachable (e.g. an id that is not a valid "
+             "URI object name)" % unparse(late[0].ast, 70)) if late else "")
 
     def same_object_false(atom, pol):
         if isinstance(atom, ast.Compare) and len(atom.ops) == 1 and objp in (unparse(atom.left), unparse(atom.comparators[0])):
